@@ -430,6 +430,26 @@ def getattr_fold_rule(repo: Repo, rep: Report, rid: str) -> None:
               "longer matches what its tables (and the stub generated from them) say", fi.loc())
 
 
+def loadfile_rule(repo: Repo, rep: Report, rid: str) -> None:
+    rep.rule(rid, "definition files are read as text with universal newlines: cstruct.loadfile opens the path in text mode without a 'newline' argument "
+                  "(the comment patterns of the parsers end a '//' comment at '\\n' only: with '\\r\\n' left in the text a commented-out member comes back)")
+    fi = repo.func("cstruct.py", "cstruct.loadfile")
+    opens = [c for c in ast.walk(fi.node) if isinstance(c, ast.Call) and call_name(c) in ("open", "read_text", "read_bytes")]
+    ok = bool(opens)
+    why = "no open() / read_text() call found"
+    for c in opens:
+        mode = None
+        if call_name(c) == "open":
+            pos = c.args[1:] if isinstance(c.func, ast.Name) else c.args
+            mode = pos[0] if pos else next((k.value for k in c.keywords if k.arg == "mode"), None)
+        if call_name(c) == "read_bytes" or (mode is not None and (not isinstance(mode, ast.Constant) or "b" in str(mode.value))):
+            ok, why = False, f"'{short(c, 50)}' reads bytes: line endings are not translated"
+        if any(k.arg == "newline" for k in c.keywords):
+            ok, why = False, f"'{short(c, 50)}' sets newline=: line endings are not translated"
+    rep.check(ok, rid, f"{fi.key}:text-mode", "opened in text mode, universal newlines", f"cstruct.loadfile: {why}; a file with Windows line endings keeps its "
+              "'\\r', which the line-comment pattern of the parser does not stop at", fi.loc())
+
+
 def run(repo: Repo, rep: Report, tier: str) -> None:
     keyword_rule(repo, rep, "C13.R1")
     gap_rule(repo, rep, "C13.R2")
@@ -448,3 +468,4 @@ def run(repo: Repo, rep: Report, tier: str) -> None:
     memo_rule(repo, rep, "C13.R11")
     identifier_rule(repo, rep, "C13.R12")
     getattr_fold_rule(repo, rep, "C13.R13")
+    loadfile_rule(repo, rep, "C13.R14")
